@@ -807,6 +807,104 @@ class Inliner(object):
         # shallow copy of the statement so that nested bodies stay shared (they are expanded separately)
         return R().visit(st)
 
+    def _sink_search_result(self, func, stmts, local_defs):
+        """The "search helper + driver" shape
+
+            found = _search(args)            # new helper: a loop that returns a tuple from inside, None after the loop
+            if found is None: LEAVE          # LEAVE ends in return / break / continue / raise
+            a, b, c = found
+            REST
+
+        is the loop of the helper with `a, b, c = <the tuple>; REST; break` at its return site and LEAVE in its else clause: the
+        search and what is done with its result read as one loop again (which is what the rules know).  Only when REST has no
+        break / continue of its own, the helper fits `_loop_returns_to_breaks`, every return inside its loop is a tuple display
+        and the one after it is None (or missing)."""
+        for i in range(len(stmts) - 1):
+            st, nxt = stmts[i], stmts[i + 1]
+            if not (isinstance(st, ast.Assign) and len(st.targets) == 1 and isinstance(st.targets[0], ast.Name) and isinstance(st.value, ast.Call)):
+                continue
+            h = self.helper_for(func, st.value, local_defs)
+            if not h:
+                continue
+            kind, hnode, recv = h
+            x = st.targets[0].id
+            if not (isinstance(nxt, ast.If) and not nxt.orelse and isinstance(nxt.test, ast.Compare) and len(nxt.test.ops) == 1
+                    and isinstance(nxt.test.ops[0], ast.Is) and isinstance(nxt.test.left, ast.Name) and nxt.test.left.id == x
+                    and isinstance(nxt.test.comparators[0], ast.Constant) and nxt.test.comparators[0].value is None):
+                continue
+            leave = nxt.body
+            if not leave or not isinstance(leave[-1], (ast.Return, ast.Break, ast.Continue, ast.Raise)):
+                continue
+            rest = stmts[i + 2:]
+            if any(isinstance(n, (ast.Break, ast.Continue)) for r in rest for n in ast.walk(r)
+                   if not any(isinstance(p_, (ast.For, ast.While)) and any(n is z for z in ast.walk(p_)) for r2 in rest for p_ in ast.walk(r2))):
+                continue
+            if hnode.decorator_list or _has_yield(hnode):
+                continue
+            bound = self._bind(hnode, st.value, recv)
+            if bound is None:
+                continue
+            mapping, prelude = bound
+            taken = {n.id for n in ast.walk(func.raw_node) if isinstance(n, ast.Name)} | set(mapping)
+            body = [_fresh_comprehension_vars(copy.deepcopy(s_), taken) for s_ in _strip_doc(hnode.body)]
+            body = [_Subst(mapping).visit(s_) for s_ in body]
+            alt = _loop_returns_to_breaks(body, x)
+            if alt is None or len(alt) < 2 or not isinstance(alt[-1], ast.Return):
+                continue
+            loop = alt[-2]
+            if not isinstance(loop, (ast.For, ast.While)):
+                continue
+            # the value after the loop must be None, every value in the loop a tuple display
+            tail_sets = [a_ for a_ in loop.orelse if isinstance(a_, ast.Assign) and unparse_(a_.targets[0]) == x]
+            if len(tail_sets) != 1 or not (isinstance(tail_sets[0].value, ast.Constant) and tail_sets[0].value.value is None):
+                continue
+            ok = [True]
+
+            def splice(seq):
+                out = []
+                j = 0
+                while j < len(seq):
+                    s_ = seq[j]
+                    if isinstance(s_, ast.Assign) and unparse_(s_.targets[0]) == x and j + 1 < len(seq) and isinstance(seq[j + 1], ast.Break):
+                        if not isinstance(s_.value, ast.Tuple):
+                            ok[0] = False
+                        out.append(s_)
+                        for r in rest:
+                            r2 = copy.deepcopy(r)
+                            # `a, b, c = found` right after `found = (a, b, c)`: nothing to bind
+                            if isinstance(r2, ast.Assign) and len(r2.targets) == 1 and isinstance(r2.targets[0], ast.Tuple) and \
+                                    isinstance(r2.value, ast.Name) and r2.value.id == x and isinstance(s_.value, ast.Tuple) and \
+                                    len(r2.targets[0].elts) == len(s_.value.elts):
+                                pairs = [(t_, v_) for t_, v_ in zip(r2.targets[0].elts, s_.value.elts) if unparse_(t_) != unparse_(v_)]
+                                for t_, v_ in pairs:
+                                    out.append(ast.copy_location(ast.Assign(targets=[copy.deepcopy(t_)], value=copy.deepcopy(v_)), r2))
+                                continue
+                            out.append(r2)
+                        out.append(seq[j + 1])
+                        j += 2
+                        continue
+                    for fld in ('body', 'orelse', 'finalbody'):
+                        sub = getattr(s_, fld, None)
+                        if isinstance(sub, list) and sub and isinstance(sub[0], ast.stmt) and not isinstance(s_, (ast.For, ast.While, ast.FunctionDef, ast.ClassDef)):
+                            setattr(s_, fld, splice(sub))
+                    if isinstance(s_, ast.Try):
+                        for hh in s_.handlers:
+                            hh.body = splice(hh.body)
+                    out.append(s_)
+                    j += 1
+                return out
+            loop.body = splice(loop.body)
+            if not ok[0]:
+                continue
+            loop.orelse = [a_ for a_ in loop.orelse if a_ is not tail_sets[0]] + [copy.deepcopy(l_) for l_ in leave]
+            new = list(stmts[:i]) + list(prelude) + list(alt[:-2]) + [loop]
+            for n_ in new:
+                ast.fix_missing_locations(n_)
+            cnt = self.index.inlined_calls
+            cnt[id(hnode)] = cnt.get(id(hnode), 0) + 1
+            return new
+        return None
+
     # -- whole function ------------------------------------------------------------------------
     def expand(self, func):
         node = func.raw_node
@@ -822,6 +920,10 @@ class Inliner(object):
             for s in stmts:
                 if isinstance(s, (ast.FunctionDef, ast.AsyncFunctionDef)):
                     local_defs[s.name] = s
+            sunk = self._sink_search_result(func, list(stmts), local_defs) if depth < MAX_DEPTH else None
+            if sunk is not None:
+                changed[0] = True
+                stmts = sunk
             out = []
             for st in stmts:
                 todo = [st]
